@@ -690,6 +690,19 @@ def check_c03(run):
         if (r[0], r[1], r[3]) != (v[0], v[1], v[2]):
             run.violation("TryFrom<&mut Bytes> and TryFrom<Bytes> disagree on the same bytes", case_replay(C, c))
             continue
+        if c["kind"] == "ctx2":
+            b = C["cases"][c["base"]]
+            pb = parse_line(b["real"])
+            run.count("accepted_hostile_inputs_redecoded_in_another_context")
+            same = (pb is not None and r[0] == "OK" and pb["ref"][0] == "OK" and
+                    norm_views(pb["ref"][1], b["off"]) == norm_views(r[1], c["off"]) and pb["ref"][2] == r[2])
+            if not same:
+                if spec_f1(C, c["spec"]) and n not in k3bad:
+                    f1_known(run, c, "step")
+                    continue
+                run.violation("an accepted input decodes differently at another offset / with other bytes behind it",
+                              case_replay(C, c, {"without_context": b["real"], "base_input": b["input"].hex(), "base_off": b["off"]}))
+            continue
         if c["kind"] == "valid":
             prev = (c, p)
         if c["kind"] == "valid_ctx" and prev is not None and prev[0]["x"] is c["x"]:
